@@ -42,6 +42,7 @@ type BPTx struct {
 	TipD  int  `json:"tip_d,omitempty"`
 	CapD  int  `json:"cap_d,omitempty"`
 	BlobD int  `json:"blob_d,omitempty"`
+	Boost int  `json:"boost,omitempty"` // replacement: all three fees additionally multiplied by 1+Boost
 }
 
 type BPBlock struct {
@@ -80,7 +81,7 @@ type BPPlan struct {
 func genBPTx(r *simcore.Rand, k *BPKnobs, serial *uint64, foreign bool) BPTx {
 	*serial++
 	t := BPTx{Acct: r.Intn(len(k.Accts))}
-	t.NonceOff = []int{0, 0, 0, 0, 0, 0, -1, -1, -2, 1, 2}[r.Intn(11)]
+	t.NonceOff = []int{0, 0, 0, 0, 0, 0, -1, -1, -2, -2, -3, 1, 2}[r.Intn(13)]
 	base := int(k.BaseFee)
 	switch r.Pick(2, 5, 2) {
 	case 0:
@@ -90,7 +91,7 @@ func genBPTx(r *simcore.Rand, k *BPKnobs, serial *uint64, foreign bool) BPTx {
 	default:
 		t.Tip = uint64(r.Range(20, 300))
 	}
-	switch r.Pick(3, 3, 2) {
+	switch r.Pick(3, 3, 3) {
 	case 0: // far above the base fee
 		t.FeeCap = t.Tip + uint64(base*r.Range(2, 20))
 	case 1: // around it
@@ -128,8 +129,10 @@ func genBPTx(r *simcore.Rand, k *BPKnobs, serial *uint64, foreign bool) BPTx {
 	if t.NonceOff < 0 || r.Bool(0.1) {
 		t.Repl = true
 		t.TipD, t.CapD, t.BlobD = r.Range(-1, 1), r.Range(-1, 1), r.Range(-1, 1)
-		if r.Bool(0.5) {
+		if r.Bool(0.6) {
 			t.TipD, t.CapD, t.BlobD = r.Range(0, 2000), r.Range(0, 2000), r.Range(0, 50)
+			// a replacement that lifts the account out of its priority bucket
+			t.Boost = []int{0, 0, 1, 3, 9, 30}[r.Intn(6)]
 		}
 	}
 	return t
@@ -208,8 +211,45 @@ func genBP(r *simcore.Rand, tier string) any {
 
 	var serial uint64
 	nops := r.Range(5, 16)
+	// Eviction-order scenario (40% of the runs): every account first pools a
+	// bottleneck transaction whose fee cap is some way below the base fee (a
+	// negative priority bucket of its own) followed by a well priced one, so the
+	// eviction heap holds several multi-transaction accounts in different buckets;
+	// the random part then contains replacements of the bottlenecks that lift an
+	// account out of its bucket, and further adds that overflow the pool.
+	scenario := r.Bool(0.4)
+	if scenario {
+		k.GasTip = 1
+		k.DatacapKB = []int{900, 1500, 2500, 4000}[r.Intn(4)]
+		for i := range k.Accts {
+			k.Accts[i].Balance = uint64(r.Range(20, 100)) * 100_000_000_000
+			low := BPTx{Acct: i, Blobs: []int{r.Intn(nBlobs)}, Value: uint64(r.Range(0, 500))}
+			serial++
+			capUnits := max(2, int(k.BaseFee)*r.Range(3, 70)/100)
+			low.FeeCap = uint64(capUnits)*1000 + serial%1000
+			low.Tip = uint64(r.Range(1, capUnits))*1000 + serial%1000
+			low.BlobFeeCap = uint64(r.Range(200, 5000))
+			good := genBPTx(r, k, &serial, false)
+			good.Acct, good.NonceOff, good.Repl, good.ValueBal = i, 0, false, 0
+			good.FeeCap = (uint64(k.BaseFee)*uint64(r.Range(2, 20))+uint64(r.Range(20, 300)))*1000 + serial%1000
+			good.Tip = uint64(r.Range(20, 300))*1000 + serial%1000
+			good.BlobFeeCap = uint64(r.Range(200, 5000))
+			good.Blobs = good.Blobs[:1]
+			p.Ops = append(p.Ops, BPOp{Kind: "add", Txs: []BPTx{low, good}})
+		}
+	}
 	for i := 0; i < nops; i++ {
 		var op BPOp
+		if scenario && r.Bool(0.3) {
+			// replace an account's oldest pooled transaction (its bottleneck) by a much better priced one
+			serial++
+			t := genBPTx(r, k, &serial, false)
+			t.NonceOff, t.Repl, t.ValueBal = -r.Range(2, 3), true, 0
+			t.TipD, t.CapD, t.BlobD = r.Range(0, 2000), r.Range(0, 2000), r.Range(0, 50)
+			t.Boost = []int{3, 9, 30, 100}[r.Intn(4)]
+			p.Ops = append(p.Ops, BPOp{Kind: "add", Txs: []BPTx{t}})
+			continue
+		}
 		switch r.Pick(45, 18, 14, 4, 8) {
 		case 0:
 			op.Kind = "add"
